@@ -303,6 +303,11 @@ class C15(Spec):
         ops = genops.gen_arrays(rng, "quick", ["for", "forb", "pfor", "dict", "rle", "rleh", "bp32", "bp64", "bpd32", "bpd64"])
         ops += genops.gen_adaptive(rng, "quick") + genops.gen_float(rng, "quick")
         ops += genops.gen_bitmap(rng, "quick")[:40]
+        # the sampled uniqueness estimate of large unsorted arrays goes through a heap scratch buffer whose size and
+        # stride depend on the count: counts far above the 10000-element switch, not multiples of round strides
+        for n, card in ((90001, 1000),) if tier == "quick" else ((90001, 1000), (100003, 1400), (200003, 1100)):
+            if True:
+                ops.append(f"adaptive.rt @u:{genops.hx(rng.getrandbits(60))}:{genops.hx(n)}:0:{genops.hx(card)}")
         if tier == "quick":
             ops = [o for o in ops if len(o) < 6000]
             # always keep the operations that go through scratch memory of input-dependent size (sampled analysis)
